@@ -12,7 +12,11 @@ Section GenBackoff.
   Hypothesis V : cfg_valid c.
   Let init := c_init c.
   Let max := c_max c.
-  Let gc := mk_T_FailureCache init max.
+  (* any FailureCache value with these two bounds: the lemma does not depend on
+     which other fields of the struct the translator can express *)
+  Variable gc : T_FailureCache.
+  Hypothesis Hinit : T_FailureCache_initialTTL gc = c_init c.
+  Hypothesis Hmax : T_FailureCache_maxTTL gc = c_max c.
 
   (* what backoff() makes of the loop's outcome *)
   Definition backoff_post (r : go_ctl Z * (T_FailureCache * N * Z * N)) : option Z :=
@@ -25,7 +29,7 @@ Section GenBackoff.
   Lemma go_backoff_unfold fuel s :
     go_FailureCache_backoff fuel gc s = backoff_post (go_FailureCache_backoff_loop1 fuel fuel gc s init 1%N).
   Proof.
-    unfold go_FailureCache_backoff, backoff_post. cbn [T_FailureCache_initialTTL gc].
+    unfold go_FailureCache_backoff, backoff_post. rewrite Hinit. fold init.
     destruct (go_FailureCache_backoff_loop1 fuel fuel gc s init 1) as [[ | x | ] [[[g' s'] t'] n']]; reflexivity.
   Qed.
 
@@ -50,7 +54,7 @@ Section GenBackoff.
   Proof.
     pose proof (valid_bounds c V) as B. fold init max in B. intro S32.
     induction lf as [|lf IH]; intros k g t F K R G G1; [lia|].
-    cbn [go_FailureCache_backoff_loop1 T_FailureCache_maxTTL gc].
+    cbn [go_FailureCache_backoff_loop1]. rewrite !Hmax. fold max.
     destruct (N.ltb g s) eqn:Egs; cbn [andb].
     - apply N.ltb_lt in Egs.
       destruct (Z.ltb t max) eqn:Etm.
@@ -78,12 +82,12 @@ Section GenBackoff.
           lia.
       + (* ttl reached max: the loop ends, every further model pass is the identity *)
         apply Z.ltb_ge in Etm. assert (t = max) by lia. subst t.
-        cbn [backoff_post T_FailureCache_maxTTL gc].
+        cbn [backoff_post]. rewrite !Hmax. fold max.
         replace (max <? max) with false by (symmetry; apply Z.ltb_ge; lia).
         f_equal. symmetry. apply iter_max.
     - (* generation reached streak *)
       apply N.ltb_ge in Egs. replace (N.to_nat (s - g)) with 0%nat by lia.
-      cbn [backoff_post backoff_iter T_FailureCache_maxTTL gc].
+      cbn [backoff_post backoff_iter]. rewrite !Hmax. fold max.
       replace (max <? t) with false by (symmetry; apply Z.ltb_ge; lia). reflexivity.
   Qed.
 
@@ -102,10 +106,15 @@ Section GenBackoff.
 End GenBackoff.
 
 (* the translated function on the default configuration, computed *)
-Example gen_backoff_default_table :
-  map (go_FailureCache_backoff 10 (mk_T_FailureCache default_initial_ttl default_max_ttl)) [0; 1; 2; 7; 4294967295]%N =
+Example gen_backoff_default_table : forall gc,
+  T_FailureCache_initialTTL gc = default_initial_ttl -> T_FailureCache_maxTTL gc = default_max_ttl ->
+  map (go_FailureCache_backoff 10 gc) [0; 1; 2; 7; 4294967295]%N =
   [Some 5000000000; Some 5000000000; Some 10000000000; Some 300000000000; Some 300000000000].
-Proof. vm_compute. reflexivity. Qed.
+Proof.
+  intros gc Hi Hm. cbn [map].
+  rewrite !(gen_backoff (mk_cfg default_initial_ttl default_max_ttl) default_cfg_valid gc Hi Hm) by (try lia; reflexivity).
+  vm_compute. reflexivity.
+Qed.
 
 (* Slot verification of zone entries: the translated failureZoneKeysEqual
    compares the zone's presentation string octet by octet and the class.  Under
